@@ -194,14 +194,35 @@ class Run:
         self.bounded.append(dict(name=name, evaluations=evaluations, distinct_nontrivial=distinct_nontrivial,
                                  rule=rule, samples=samples[:5], exhaustive=exhaustive))
 
-    def pmap(self, fn, tasks, workers=None):
-        """bounded stand-ins are embarrassingly parallel: run module-level fn over tasks in a fork pool (results in order)"""
+    def pmap(self, fn, tasks, workers=None, timeout=2400):
+        """bounded stand-ins are embarrassingly parallel: run module-level fn over tasks in forked worker processes (results in
+        order).  The workers run the real compiled code: if one is killed (segmentation fault, abort) or the batch does not finish, the
+        offending case is reported as a violation (a kernel that corrupts memory on a small input) and the check stops there."""
         import multiprocessing as mp
+        from concurrent.futures import ProcessPoolExecutor, TimeoutError as FTimeout
+        from concurrent.futures.process import BrokenProcessPool
         workers = workers or min(16, os.cpu_count() or 1, max(1, len(tasks)))
-        if workers <= 1 or len(tasks) <= 1:
-            return [fn(t) for t in tasks]
-        with mp.get_context('fork').Pool(workers) as pool:
-            return pool.map(fn, tasks, chunksize=1)
+        if not tasks:
+            return []
+        ctx = mp.get_context('fork')
+        try:
+            with ProcessPoolExecutor(max_workers=workers, mp_context=ctx) as ex:
+                return list(ex.map(fn, tasks, timeout=timeout))
+        except (BrokenProcessPool, FTimeout) as first:
+            # find the case: one worker per task, sequentially, each with its own deadline
+            for t in tasks:
+                try:
+                    with ProcessPoolExecutor(max_workers=1, mp_context=ctx) as ex:
+                        ex.submit(fn, t).result(timeout=min(timeout, 600))
+                except (BrokenProcessPool, FTimeout) as exn:
+                    what = 'was killed (segmentation fault / abort)' if isinstance(exn, BrokenProcessPool) else 'did not finish'
+                    self.bounded_violation('the real code brought its worker process down', dict(task=repr(t)[:600]),
+                                           f'worker process {what} while running {fn.__module__}.{fn.__name__} on {repr(t)[:300]}')
+                    raise WorkerDied()
+                except Exception:
+                    continue
+            self.undecided.append(f'worker pool broke ({first!r}) but no single case reproduces it')
+            raise WorkerDied()
 
     # ------------------------------------------------------------------ finish
     def finish(self, crashed=None):
@@ -279,6 +300,10 @@ class Run:
 
 
 _PENDING, _REPO = [], '/repo'
+
+
+class WorkerDied(Exception):
+    """a bounded stand-in lost a worker process; the violation / undecided entry is already recorded"""
 
 
 def _isolated(rep, o, model, timeout=900):
